@@ -228,9 +228,10 @@ void BpEndecodeArray(struct BpArrayDescriptor *descriptor,
         }
     }
 
-    // Skip redundant bits if decoding.
+    // Skip redundant bits if decoding: the opponent's array occupies the
+    // 16 bits ahead flag plus `ahead` elements.
     if (descriptor->extensible && (!ctx->is_encode)) {
-        int ito = i + (((int)ahead) * descriptor->cap);
+        int ito = i + 16 + (((int)ahead) * element_nbits);
         if (ito >= ctx->i) {
             ctx->i = ito;
         }
